@@ -11,12 +11,15 @@
      G3  [written_columns_spec]: every written instance finds its OWN value (after the column's migration) in every column
          it carries a spelling of, and the database default of ITS class in the others; [known_props_roundtrip_partial]:
          BinRoundTrip.file_values_roundtrip without the hypothesis that the file was written (generic in the column law);
-         [cell_ok] / [normB] / [known_col_roundtrip]: the column law for 22 wire types from the round trips of BinValuesFacts 1-3, for the
-         canonical type the reader finds; [pair_cells_ok] / [dom_values_ok] / [dom_sstrs_ok]: ONE executable predicate on the DOM
+         [cell_ok] / [normB] / [known_col_roundtrip]: the column law for ALL 31 wire types (the widening cases through [canonv], the
+         string-likes through [spay] / [normS], SharedString through [sstr_known]) from the round trips of BinValuesFacts 1-3, for the
+         canonical type the reader finds; [normB_*]: normB named per kind of cell; [reads_back]: the WeakDom rule for "UniqueId";
+         [pair_cells_ok] / [dom_values_ok] / [dom_sstrs_ok]: ONE executable predicate on the DOM
          (value ranges, reader arm, back-lookup of the serialized name = canonical name without migration, serialized names);
          [known_columns_cells], [plan_hyps_from_dom] (ser_names_ok, name_cols_ok, sstr_ok discharged);
          [known_props_roundtrip] (+ _bundled): the CLOSED whole-file statement; [bundled_back_offenders]: the two properties of the
-         bundled database whose serialized name leads back to another property; [bundled_example_roundtrip]: computed example. *)
+         bundled database whose serialized name leads back to another property; [bundled_example_roundtrip], [all_cells_roundtrip]:
+         computed examples (the bundled-database statements are in Proofs/BinKnownPropsBundled.v). *)
 From Coq Require Import Lia Permutation String.
 From RbxVerif Require Import Base Bytes Value Utf8 Db DbCheck CodecDom Attr BrickColor BinValues BinFile BinFileFacts AttrFacts AttrSafe
                              BinColumnsFacts DbFacts BinPostorder BinStructure BinValuesFacts BinValuesFacts2 BinTypeInfoFacts.
@@ -1607,18 +1610,56 @@ Qed.
 (* ========================================================================================== *)
 (* G3, part 1: the column law per wire type, for a column read with canonical type [cty]         *)
 (* ========================================================================================== *)
-(* the value-range side conditions of the column round trips (BinValuesFacts 1-3), and the pairs
-   (wire type, canonical type) the reader has an arm for, as ONE executable predicate per cell *)
-Definition cell_ok (wt : wire_type) (cty : N) (v : value) : bool :=
+(* ---- the form in which an arm that accepts several Variants writes a value: Int32 as Int64, Float32 as Float64,
+   EnumItem as Enum, Int32 as a BrickColor number ---- *)
+Definition canonv (wt : wire_type) (v : value) : value :=
   match wt, v with
+  | WInt64, VInt32 z => VInt64 z
+  | WFloat64, VFloat32 x => VFloat64 (f64_of_f32 x)
+  | WEnum, VEnumItem _ n => VEnum n
+  | WBrickColor, VInt32 z => VBrickColor (wrap_u 32 z)
+  | _, _ => v
+  end.
+
+(* the payload of a value the String arm writes *)
+Definition spay (v : value) : option bytes :=
+  match v with
+  | VString s | VBinaryString s | VContentId s => Some s
+  | VTags ts => Some (tags_encode ts)
+  | VMaterialColors m => Some (matcol_encode m)
+  | VAttributes m => match attr_encode m with Ok b => Some b | _ => None end
+  | _ => None
+  end.
+Definition spayd (v : value) : bytes := match spay v with Some p => p | None => [] end.
+
+(* what the String arm of the reader makes of a payload, by the canonical type of the property *)
+Definition str_arm_ok (cty : N) (p : bytes) : bool :=
+  if N.eqb cty VT_Str then true
+  else if N.eqb cty VT_ContentId then utf8_valid p
+  else if N.eqb cty VT_BinaryString then true
+  else if N.eqb cty VT_Tags then match tags_decode p with Some _ => true | None => false end
+  else if N.eqb cty VT_Attributes then match attr_decode p with Ok _ | Err _ => true | _ => false end
+  else if N.eqb cty VT_MaterialColors then true
+  else false.
+Definition normS (cty : N) (p : bytes) : value :=
+  if N.eqb cty VT_Str then VString (str_norm p)
+  else if N.eqb cty VT_ContentId then VContentId p
+  else if N.eqb cty VT_BinaryString then VBinaryString p
+  else if N.eqb cty VT_Tags then match tags_decode p with Some ts => VTags ts | None => VBinaryString p end
+  else if N.eqb cty VT_Attributes then match attr_decode p with Ok m => VAttributes m | _ => VBinaryString p end
+  else match matcol_decode p with Some m => VMaterialColors m | None => VBinaryString p end.
+
+(* the value-range side conditions of the column round trips (BinValuesFacts 1-3), and the pairs
+   (wire type, canonical type) the reader has an arm for, as ONE executable predicate per cell (in canonical form) *)
+Definition cell_ok0 (wt : wire_type) (cty : N) (v : value) : bool :=
+  match wt, v with
+  | WString, _ => match spay v with Some p => bstr_ok None p && str_arm_ok cty p | None => false end
   | WBool, VBool _ => N.eqb cty VT_Bool
-  | WInt32, VInt32 z => N.eqb cty VT_Int32 && in_i32 z
+  | WInt32, VInt32 z => (N.eqb cty VT_Int32 || N.eqb cty VT_Int64) && in_i32 z
   | WInt64, VInt64 z => N.eqb cty VT_Int64 && in_i64 z
-  | WFloat32, VFloat32 x => N.eqb cty VT_Float32 && f32_ok x
+  | WFloat32, VFloat32 x => (N.eqb cty VT_Float32 || N.eqb cty VT_Float64) && f32_ok x
   | WFloat64, VFloat64 x => N.eqb cty VT_Float64 && f64_ok x
   | WEnum, VEnum n => N.eqb cty VT_Enum && N.ltb n 4294967296
-  | WString, VString s => ((N.eqb cty VT_Str && utf8_valid s) || N.eqb cty VT_BinaryString) && bstr_ok None s
-  | WString, VBinaryString s => N.eqb cty VT_BinaryString && bstr_ok None s
   | WVector3, VVector3 p => N.eqb cty VT_Vector3 && vec3_ok p
   | WVector2, VVector2 p => N.eqb cty VT_Vector2 && vec2_ok p
   | WColor3, VColor3 r g b => N.eqb cty VT_Color3 && f32_ok r && f32_ok g && f32_ok b
@@ -1634,18 +1675,38 @@ Definition cell_ok (wt : wire_type) (cty : N) (v : value) : bool :=
   | WNumberRange, VNumberRange lo hi => N.eqb cty VT_NumberRange && f32_ok lo && f32_ok hi
   | WRect, VRect lo hi => N.eqb cty VT_Rect && vec2_ok lo && vec2_ok hi
   | WSecurityCapabilities, VSecurityCapabilities n => N.eqb cty VT_SecurityCapabilities && N.ltb n 18446744073709551616
+  | WVector3int16, VVector3int16 x y z => N.eqb cty VT_Vector3int16 && in_i16 x && in_i16 y && in_i16 z
+  | WNumberSequence, VNumberSequence kps => N.eqb cty VT_NumberSequence && BinValuesFacts3.nseq_ok None kps
+  | WColorSequence, VColorSequence kps => N.eqb cty VT_ColorSequence && BinValuesFacts3.cseq_ok None kps
+  | WPhysicalProperties, VPhysicalProperties o => N.eqb cty VT_PhysicalProperties && physopt_ok o
+  | WOptionalCFrame, VOptionalCFrame o => N.eqb cty VT_OptionalCFrame && BinValuesFacts3.ocf_ok o
+  | WFont, VFont f => N.eqb cty VT_Font && BinValuesFacts3.font_ok None f
+  | WContent, VContent x => N.eqb cty VT_Content && match x with CUri u => BinValuesFacts3.str_ok None u | _ => true end
+  | WUniqueId, VUniqueId i t r => N.eqb cty VT_UniqueId && uid_ok (i, t, r)
+  | WSharedString, VSharedString _ => N.eqb cty VT_SharedString      (* and the string is in the SSTR table: [sstr_known] *)
   | _, _ => false
   end.
+Definition cell_ok (wt : wire_type) (cty : N) (v : value) : bool := cell_ok0 wt cty (canonv wt v).
 
 (* normB: what the reader returns for an accepted cell *)
-Definition normB (q : f32 -> N) (rn : N -> N) (wt : wire_type) (cty : N) (v : value) : value :=
-  match v with
-  | VString s => if N.eqb cty VT_BinaryString then VBinaryString s else VString s
-  | VColor3 r g b => match wt with WColor3uint8 => VColor3uint8 (q r) (q g) (q b) | _ => v end
-  | VRef r => VRef (rn r)
-  | VCFrame cf => VCFrame (BinValuesFacts3.norm_cframe cf)
-  | _ => v
+Definition normB0 (q : f32 -> N) (rn : N -> N) (wt : wire_type) (cty : N) (v : value) : value :=
+  match wt with
+  | WString => match spay v with Some p => normS cty p | None => v end
+  | _ =>
+    match v with
+    | VInt32 z => if N.eqb cty VT_Int64 then VInt64 z else v
+    | VFloat32 x => if N.eqb cty VT_Float64 then VFloat64 (f64_of_f32 x) else v
+    | VColor3 r g b => match wt with WColor3uint8 => VColor3uint8 (q r) (q g) (q b) | _ => v end
+    | VRef r => VRef (rn r)
+    | VCFrame cf => VCFrame (BinValuesFacts3.norm_cframe cf)
+    | VOptionalCFrame o => VOptionalCFrame (BinValuesFacts3.norm_ocf o)
+    | VFont f => VFont (BinValuesFacts3.norm_font f)
+    | VContent x => VContent (match x with CObject r => CObject (rn r) | _ => x end)
+    | _ => v
+    end
   end.
+Definition normB (q : f32 -> N) (rn : N -> N) (wt : wire_type) (cty : N) (v : value) : value :=
+  normB0 q rn wt cty (canonv wt v).
 
 Lemma homog_ok {A} (C : A -> value) (Q : A -> Prop) vs :
   (forall v, In v vs -> exists a, v = C a /\ Q a) -> exists xs, vs = List.map C xs /\ Forall Q xs.
@@ -1655,7 +1716,19 @@ Proof.
   exists (a :: xs). split; [reflexivity|now constructor].
 Qed.
 
-Definition spay (v : value) : bytes := match v with VString s | VBinaryString s => s | _ => [] end.
+Lemma collect_canon {A} (f : value -> res A) (g : value -> value) vs :
+  (forall v, f (g v) = f v) -> collect f (List.map g vs) = collect f vs.
+Proof. intros H. induction vs as [|v vs IH]; [reflexivity|]. cbn [List.map collect]. now rewrite H, IH. Qed.
+
+Lemma enc_col_canon wt c vs : enc_col wt c (List.map (canonv wt) vs) = enc_col wt c vs.
+Proof.
+  destruct wt;
+    try (rewrite (map_ext_in (canonv _) (fun v => v)), map_id; [reflexivity|intros v _; destruct v; reflexivity]);
+    cbn [enc_col]; rewrite collect_canon; try reflexivity; intros v; destruct v; reflexivity.
+Qed.
+
+Ltac bsplit := repeat match goal with H : (_ && _)%bool = true |- _ => apply andb_true_iff in H; destruct H end;
+               repeat match goal with H : N.ltb _ _ = true |- _ => apply N.ltb_lt in H end.
 
 Section KnownCol.
 Variable c : enc_ctx.
@@ -1663,160 +1736,304 @@ Variable dc : dec_ctx.
 Hypothesis Hlim : dc_lim dc = None.
 Hypothesis Href : forall r, in_i32 (ref_id c r) = true.
 
-Lemma enc_strs vs : (forall v, In v vs -> exists s, v = VString s \/ v = VBinaryString s) ->
-  enc_col WString c vs = Ok (flat_map w_bstr (List.map spay vs)).
+Lemma enc_strs vs : (forall v, In v vs -> spay v <> None) ->
+  enc_col WString c vs = Ok (flat_map w_bstr (List.map spayd vs)).
 Proof.
   intros H. cbn [enc_col].
-  match goal with |- rbind (collect ?f vs) _ = _ => assert (E : collect f vs = Ok (List.map (fun v => w_bstr (spay v)) vs)) end.
+  match goal with |- rbind (collect ?f vs) _ = _ => assert (E : collect f vs = Ok (List.map (fun v => w_bstr (spayd v)) vs)) end.
   { induction vs as [|v vs IH]; [reflexivity|]. cbn [collect List.map].
-    destruct (H v (or_introl eq_refl)) as (s & [-> | ->]); cbn [rbind spay]; rewrite IH by (intros w Hw; apply H; now right); reflexivity. }
+    rewrite IH by (intros w Hw; apply H; now right). pose proof (H v (or_introl eq_refl)) as Hv.
+    unfold spayd. destruct v; cbn [spay] in *; try congruence; try reflexivity.
+    destruct (attr_encode m); try congruence. reflexivity. }
   rewrite E. cbn [rbind]. f_equal. rewrite concat_map_flat_map. clear. induction vs; [reflexivity|]. cbn [flat_map List.map]. congruence.
 Qed.
 
-Ltac cell_inv H v Hv := specialize (H v Hv); destruct v; try discriminate H.
-
-Ltac bsplit := repeat match goal with H : (_ && _)%bool = true |- _ => apply andb_true_iff in H; destruct H end;
-               repeat match goal with H : N.ltb _ _ = true |- _ => apply N.ltb_lt in H end.
-
-Theorem known_col_roundtrip wt cty vs :
-  vs <> [] -> Forall (fun v => cell_ok wt cty v = true) vs ->
+Lemma dec_strs cty ps rest :
+  Forall (fun p => bstr_ok (dc_lim dc) p = true /\ str_arm_ok cty p = true) ps -> ps <> [] ->
+  dec_col WString cty dc (length ps) (flat_map w_bstr ps ++ rest) = Ok (List.map (normS cty) ps, rest).
+Proof.
+  intros HF Hne.
+  assert (Hb : Forall (fun p => bstr_ok (dc_lim dc) p = true) ps) by (eapply Forall_impl; [|exact HF]; now intros a [Ha _]).
+  assert (Hitem : forall a r, bstr_ok (dc_lim dc) a = true -> read_bstr (dc_lim dc) (w_bstr a ++ r) = Ok (a, r)).
+  { intros a r Ha. apply bstr_ok_spec in Ha. destruct Ha as [Hl Ha]. now apply read_bstr_app. }
+  unfold normS, str_arm_ok in *.
+  destruct (N.eqb cty VT_Str) eqn:E1.
+  { apply N.eqb_eq in E1. subst cty. rewrite dec_string_as_str by exact Hb. reflexivity. }
+  cbn [dec_col]. rewrite E1.
+  destruct (N.eqb cty VT_ContentId) eqn:E2.
+  { apply (prepeat_roundtrip_map (fun p => bstr_ok (dc_lim dc) p = true /\ utf8_valid p = true) w_bstr VContentId); [|exact HF].
+    intros a r [Ha Hu]. unfold pbind, read_str, pbind. rewrite (Hitem a r Ha), Hu. reflexivity. }
+  destruct (N.eqb cty VT_BinaryString) eqn:E3.
+  { apply (prepeat_roundtrip_map (fun p => bstr_ok (dc_lim dc) p = true) w_bstr VBinaryString); [|exact Hb].
+    intros a r Ha. unfold pbind. rewrite (Hitem a r Ha). reflexivity. }
+  destruct (N.eqb cty VT_Tags) eqn:E4.
+  { apply (prepeat_roundtrip_map (fun p => bstr_ok (dc_lim dc) p = true /\ match tags_decode p with Some _ => true | None => false end = true)
+             w_bstr (fun p => match tags_decode p with Some ts => VTags ts | None => VBinaryString p end)); [|exact HF].
+    intros a r [Ha Ht]. unfold pbind. rewrite (Hitem a r Ha). destruct (tags_decode a); [reflexivity|discriminate]. }
+  destruct (N.eqb cty VT_Attributes) eqn:E5.
+  { apply (prepeat_roundtrip_map (fun p => bstr_ok (dc_lim dc) p = true /\ match attr_decode p with Ok _ | Err _ => true | _ => false end = true)
+             w_bstr (fun p => match attr_decode p with Ok m => VAttributes m | _ => VBinaryString p end)); [|exact HF].
+    intros a r [Ha Ht]. unfold pbind. rewrite (Hitem a r Ha). destruct (attr_decode a); try discriminate; reflexivity. }
+  destruct (N.eqb cty VT_MaterialColors) eqn:E6.
+  { apply (prepeat_roundtrip_map (fun p => bstr_ok (dc_lim dc) p = true) w_bstr
+             (fun p => match matcol_decode p with Some m => VMaterialColors m | None => VBinaryString p end)); [|exact Hb].
+    intros a r Ha. unfold pbind. rewrite (Hitem a r Ha). reflexivity. }
+  exfalso. destruct ps as [|p0 ps0]; [congruence|]. apply Forall_cons_iff in HF. destruct HF as [[_ H] _]. discriminate.
+Qed.
+Theorem known_col_roundtrip0 wt cty vs :
+  vs <> [] -> N.of_nat (length vs) < 2 ^ 32 -> Forall (fun v => cell_ok0 wt cty v = true) vs ->
+  (forall s, In (VSharedString s) vs -> BinValuesFacts3.sstr_ok c dc s = true /\ BinValuesFacts3.sstr_back c dc s = s) ->
   exists b, enc_col wt c vs = Ok b /\
             dec_col wt cty dc (length vs) (b ++ []) =
-            Ok (List.map (normB (ec_quant c) (fun r => dc_resolve dc (ref_id c r)) wt cty) vs, []).
+            Ok (List.map (normB0 (ec_quant c) (fun r => dc_resolve dc (ref_id c r)) wt cty) vs, []).
 Proof.
-  intros Hne HF. rewrite Forall_forall in HF.
+  intros Hne Hn HF Hss. rewrite Forall_forall in HF.
   assert (Hv0 : exists v0, In v0 vs) by (destruct vs; [congruence|eexists; now left]). destruct Hv0 as [v0 Hv0].
   pose proof (HF v0 Hv0) as H0. clear Hne.
   destruct wt; try (exfalso; destruct v0; discriminate H0).
-  - (* String-like *)
-    destruct (N.eqb cty VT_BinaryString) eqn:Eb.
-    + apply N.eqb_eq in Eb. subst cty.
-      assert (Hs : forall v, In v vs -> (exists s, v = VString s \/ v = VBinaryString s) /\ bstr_ok (dc_lim dc) (spay v) = true).
-      { intros v Hv. specialize (HF v Hv). rewrite Hlim. destruct v; try discriminate HF; cbn [cell_ok spay] in *; bsplit; eauto. }
-      exists (flat_map w_bstr (List.map spay vs)). split; [apply enc_strs; intros v Hv; apply (Hs v Hv)|].
-      rewrite <- (map_length spay vs), dec_string_as_binary.
-      * f_equal. f_equal. rewrite map_map. apply map_ext_in. intros v Hv. destruct (Hs v Hv) as [(s & [-> | ->]) _]; reflexivity.
-      * apply Forall_forall. intros s Hs'. apply in_map_iff in Hs'. destruct Hs' as (v & <- & Hv). apply (Hs v Hv).
-    + destruct (homog_ok VString (fun s => bstr_ok (dc_lim dc) s = true /\ utf8_valid s = true) vs) as (xs & -> & Hxs).
-      { intros v Hv. specialize (HF v Hv). rewrite Hlim. destruct v; try discriminate HF; cbn [cell_ok] in HF; rewrite Eb in HF.
-        - cbn [andb] in HF. discriminate.
-        - rewrite orb_false_r in HF. bsplit. eauto. }
-      assert (cty = VT_Str) as ->.
-      { destruct v0; try discriminate H0; cbn [cell_ok] in H0; rewrite Eb in H0; [discriminate|].
-        rewrite orb_false_r in H0. bsplit. now apply N.eqb_eq. }
-      rewrite map_map, map_length. cbn [normB]. change (N.eqb VT_Str VT_BinaryString) with false. cbv iota.
-      apply col_roundtrip_string. exact Hxs.
+  - (* String-like: String, BinaryString, ContentId, Tags, Attributes, MaterialColors *)
+    assert (Hs : forall v, In v vs -> spay v <> None /\ bstr_ok (dc_lim dc) (spayd v) = true /\ str_arm_ok cty (spayd v) = true).
+    { intros v Hv. specialize (HF v Hv). cbn [cell_ok0] in HF. unfold spayd. rewrite Hlim.
+      destruct (spay v) as [p|]; [|discriminate]. apply andb_true_iff in HF. destruct HF. split; [discriminate|auto]. }
+    exists (flat_map w_bstr (List.map spayd vs)). split; [apply enc_strs; intros v Hv; apply (Hs v Hv)|].
+    rewrite <- (map_length spayd vs), dec_strs.
+    + f_equal. f_equal. rewrite map_map. apply map_ext_in. intros v Hv. destruct (Hs v Hv) as [Hp _]. cbn [normB0]. unfold spayd.
+      destruct (spay v); [reflexivity|congruence].
+    + apply Forall_forall. intros s Hs'. apply in_map_iff in Hs'. destruct Hs' as (v & <- & Hv). apply (Hs v Hv).
+    + destruct vs; [destruct Hv0|discriminate].
   - (* Bool *)
     destruct (homog_ok VBool (fun _ => True) vs) as (xs & -> & _).
     { intros v Hv. specialize (HF v Hv). destruct v; try discriminate HF. eauto. }
     assert (cty = VT_Bool) as -> by (destruct v0; try discriminate H0; now apply N.eqb_eq).
-    rewrite map_map, map_length. cbn [normB]. apply col_roundtrip_bool.
-  - (* Int32 *)
+    rewrite map_map, map_length. cbn [normB0]. apply col_roundtrip_bool.
+  - (* Int32, also read for an Int64 property *)
     destruct (homog_ok VInt32 (fun z => in_i32 z = true) vs) as (xs & -> & Hxs).
-    { intros v Hv. specialize (HF v Hv). destruct v; try discriminate HF. cbn [cell_ok] in HF. bsplit. eauto. }
-    assert (cty = VT_Int32) as -> by (destruct v0; try discriminate H0; cbn [cell_ok] in H0; bsplit; now apply N.eqb_eq).
-    rewrite map_map, map_length. cbn [normB]. apply col_roundtrip_int32. exact Hxs.
-  - (* Float32 *)
+    { intros v Hv. specialize (HF v Hv). destruct v; try discriminate HF. cbn [cell_ok0] in HF. bsplit. eauto. }
+    assert (Hc : cty = VT_Int32 \/ cty = VT_Int64).
+    { destruct v0; try discriminate H0; cbn [cell_ok0] in H0; bsplit.
+      match goal with H : (_ || _)%bool = true |- _ => apply orb_true_iff in H; destruct H as [H|H]; apply N.eqb_eq in H; auto end. }
+    rewrite map_map, map_length. cbn [normB0]. destruct Hc as [-> | ->].
+    + change (N.eqb VT_Int32 VT_Int64) with false. cbv iota. apply col_roundtrip_int32. exact Hxs.
+    + change (N.eqb VT_Int64 VT_Int64) with true. cbv iota. apply col_widen_int32_int64. exact Hxs.
+  - (* Float32, also read for a Float64 property *)
     destruct (homog_ok VFloat32 (fun z => f32_ok z = true) vs) as (xs & -> & Hxs).
-    { intros v Hv. specialize (HF v Hv). destruct v; try discriminate HF. cbn [cell_ok] in HF. bsplit. eauto. }
-    assert (cty = VT_Float32) as -> by (destruct v0; try discriminate H0; cbn [cell_ok] in H0; bsplit; now apply N.eqb_eq).
-    rewrite map_map, map_length. cbn [normB]. apply col_roundtrip_float32. exact Hxs.
+    { intros v Hv. specialize (HF v Hv). destruct v; try discriminate HF. cbn [cell_ok0] in HF. bsplit. eauto. }
+    assert (Hc : cty = VT_Float32 \/ cty = VT_Float64).
+    { destruct v0; try discriminate H0; cbn [cell_ok0] in H0; bsplit.
+      match goal with H : (_ || _)%bool = true |- _ => apply orb_true_iff in H; destruct H as [H|H]; apply N.eqb_eq in H; auto end. }
+    rewrite map_map, map_length. cbn [normB0]. destruct Hc as [-> | ->].
+    + change (N.eqb VT_Float32 VT_Float64) with false. cbv iota. apply col_roundtrip_float32. exact Hxs.
+    + change (N.eqb VT_Float64 VT_Float64) with true. cbv iota. apply col_widen_float32_float64. exact Hxs.
   - (* Float64 *)
     destruct (homog_ok VFloat64 (fun z => f64_ok z = true) vs) as (xs & -> & Hxs).
-    { intros v Hv. specialize (HF v Hv). destruct v; try discriminate HF. cbn [cell_ok] in HF. bsplit. eauto. }
-    assert (cty = VT_Float64) as -> by (destruct v0; try discriminate H0; cbn [cell_ok] in H0; bsplit; now apply N.eqb_eq).
-    rewrite map_map, map_length. cbn [normB]. apply col_roundtrip_float64. exact Hxs.
+    { intros v Hv. specialize (HF v Hv). destruct v; try discriminate HF. cbn [cell_ok0] in HF. bsplit. eauto. }
+    assert (cty = VT_Float64) as -> by (destruct v0; try discriminate H0; cbn [cell_ok0] in H0; bsplit; now apply N.eqb_eq).
+    rewrite map_map, map_length. cbn [normB0]. apply col_roundtrip_float64. exact Hxs.
   - (* UDim *)
     destruct (homog_ok VUDim (fun u => f32_ok (ud_scale u) = true /\ in_i32 (ud_offset u) = true) vs) as (xs & -> & Hxs).
-    { intros v Hv. specialize (HF v Hv). destruct v; try discriminate HF. cbn [cell_ok] in HF. unfold udim_ok in HF. bsplit. eauto. }
-    assert (cty = VT_UDim) as -> by (destruct v0; try discriminate H0; cbn [cell_ok] in H0; bsplit; now apply N.eqb_eq).
-    rewrite map_map, map_length. cbn [normB]. apply col_roundtrip_udim. exact Hxs.
+    { intros v Hv. specialize (HF v Hv). destruct v; try discriminate HF. cbn [cell_ok0] in HF. unfold udim_ok in HF. bsplit. eauto. }
+    assert (cty = VT_UDim) as -> by (destruct v0; try discriminate H0; cbn [cell_ok0] in H0; bsplit; now apply N.eqb_eq).
+    rewrite map_map, map_length. cbn [normB0]. apply col_roundtrip_udim. exact Hxs.
   - (* UDim2 *)
     destruct (homog_ok (fun p => VUDim2 (fst p) (snd p)) (fun p => udim_ok (fst p) = true /\ udim_ok (snd p) = true) vs) as (xs & -> & Hxs).
-    { intros v Hv. specialize (HF v Hv). destruct v; try discriminate HF. cbn [cell_ok] in HF. bsplit. exists (x, y). auto. }
-    assert (cty = VT_UDim2) as -> by (destruct v0; try discriminate H0; cbn [cell_ok] in H0; bsplit; now apply N.eqb_eq).
-    rewrite map_map, map_length. cbn [normB]. apply col_roundtrip_udim2. exact Hxs.
+    { intros v Hv. specialize (HF v Hv). destruct v; try discriminate HF. cbn [cell_ok0] in HF. bsplit. exists (x, y). auto. }
+    assert (cty = VT_UDim2) as -> by (destruct v0; try discriminate H0; cbn [cell_ok0] in H0; bsplit; now apply N.eqb_eq).
+    rewrite map_map, map_length. cbn [normB0]. apply col_roundtrip_udim2. exact Hxs.
   - (* Ray *)
     destruct (homog_ok (fun q => VRay (fst q) (snd q)) (fun q => vec3_ok (fst q) = true /\ vec3_ok (snd q) = true) vs) as (xs & -> & Hxs).
-    { intros v Hv. specialize (HF v Hv). destruct v; try discriminate HF. cbn [cell_ok] in HF. bsplit. exists (origin, direction). auto. }
-    assert (cty = VT_Ray) as -> by (destruct v0; try discriminate H0; cbn [cell_ok] in H0; bsplit; now apply N.eqb_eq).
-    rewrite map_map, map_length. cbn [normB]. apply col_roundtrip_ray. exact Hxs.
+    { intros v Hv. specialize (HF v Hv). destruct v; try discriminate HF. cbn [cell_ok0] in HF. bsplit. exists (origin, direction). auto. }
+    assert (cty = VT_Ray) as -> by (destruct v0; try discriminate H0; cbn [cell_ok0] in H0; bsplit; now apply N.eqb_eq).
+    rewrite map_map, map_length. cbn [normB0]. apply col_roundtrip_ray. exact Hxs.
   - (* Faces *)
     destruct (homog_ok VFaces (fun n => n < 64) vs) as (xs & -> & Hxs).
-    { intros v Hv. specialize (HF v Hv). destruct v; try discriminate HF. cbn [cell_ok] in HF. bsplit. eauto. }
-    assert (cty = VT_Faces) as -> by (destruct v0; try discriminate H0; cbn [cell_ok] in H0; bsplit; now apply N.eqb_eq).
-    rewrite map_map, map_length. cbn [normB]. apply col_roundtrip_faces. exact Hxs.
+    { intros v Hv. specialize (HF v Hv). destruct v; try discriminate HF. cbn [cell_ok0] in HF. bsplit. eauto. }
+    assert (cty = VT_Faces) as -> by (destruct v0; try discriminate H0; cbn [cell_ok0] in H0; bsplit; now apply N.eqb_eq).
+    rewrite map_map, map_length. cbn [normB0]. apply col_roundtrip_faces. exact Hxs.
   - (* Axes *)
     destruct (homog_ok VAxes (fun n => n < 8) vs) as (xs & -> & Hxs).
-    { intros v Hv. specialize (HF v Hv). destruct v; try discriminate HF. cbn [cell_ok] in HF. bsplit. eauto. }
-    assert (cty = VT_Axes) as -> by (destruct v0; try discriminate H0; cbn [cell_ok] in H0; bsplit; now apply N.eqb_eq).
-    rewrite map_map, map_length. cbn [normB]. apply col_roundtrip_axes. exact Hxs.
+    { intros v Hv. specialize (HF v Hv). destruct v; try discriminate HF. cbn [cell_ok0] in HF. bsplit. eauto. }
+    assert (cty = VT_Axes) as -> by (destruct v0; try discriminate H0; cbn [cell_ok0] in H0; bsplit; now apply N.eqb_eq).
+    rewrite map_map, map_length. cbn [normB0]. apply col_roundtrip_axes. exact Hxs.
   - (* BrickColor *)
     destruct (homog_ok VBrickColor (fun n => n < 65536 /\ brick_valid n = true) vs) as (xs & -> & Hxs).
-    { intros v Hv. specialize (HF v Hv). destruct v; try discriminate HF. cbn [cell_ok] in HF. bsplit. eauto. }
-    assert (cty = VT_BrickColor) as -> by (destruct v0; try discriminate H0; cbn [cell_ok] in H0; bsplit; now apply N.eqb_eq).
-    rewrite map_map, map_length. cbn [normB]. apply col_roundtrip_brickcolor. exact Hxs.
+    { intros v Hv. specialize (HF v Hv). destruct v; try discriminate HF. cbn [cell_ok0] in HF. bsplit. eauto. }
+    assert (cty = VT_BrickColor) as -> by (destruct v0; try discriminate H0; cbn [cell_ok0] in H0; bsplit; now apply N.eqb_eq).
+    rewrite map_map, map_length. cbn [normB0]. apply col_roundtrip_brickcolor. exact Hxs.
   - (* Color3 *)
     destruct (homog_ok (fun p => VColor3 (fst (fst p)) (snd (fst p)) (snd p))
                 (fun p => f32_ok (fst (fst p)) = true /\ f32_ok (snd (fst p)) = true /\ f32_ok (snd p) = true) vs) as (xs & -> & Hxs).
-    { intros v Hv. specialize (HF v Hv). destruct v; try discriminate HF. cbn [cell_ok] in HF. bsplit. exists (r, g, b). auto. }
-    assert (cty = VT_Color3) as -> by (destruct v0; try discriminate H0; cbn [cell_ok] in H0; bsplit; now apply N.eqb_eq).
-    rewrite map_map, map_length. cbn [normB]. apply col_roundtrip_color3. exact Hxs.
+    { intros v Hv. specialize (HF v Hv). destruct v; try discriminate HF. cbn [cell_ok0] in HF. bsplit. exists (r, g, b). auto. }
+    assert (cty = VT_Color3) as -> by (destruct v0; try discriminate H0; cbn [cell_ok0] in H0; bsplit; now apply N.eqb_eq).
+    rewrite map_map, map_length. cbn [normB0]. apply col_roundtrip_color3. exact Hxs.
   - (* Vector2 *)
     destruct (homog_ok VVector2 (fun z => vec2_ok z = true) vs) as (xs & -> & Hxs).
-    { intros v Hv. specialize (HF v Hv). destruct v; try discriminate HF. cbn [cell_ok] in HF. bsplit. eauto. }
-    assert (cty = VT_Vector2) as -> by (destruct v0; try discriminate H0; cbn [cell_ok] in H0; bsplit; now apply N.eqb_eq).
-    rewrite map_map, map_length. cbn [normB]. apply col_roundtrip_vector2. exact Hxs.
+    { intros v Hv. specialize (HF v Hv). destruct v; try discriminate HF. cbn [cell_ok0] in HF. bsplit. eauto. }
+    assert (cty = VT_Vector2) as -> by (destruct v0; try discriminate H0; cbn [cell_ok0] in H0; bsplit; now apply N.eqb_eq).
+    rewrite map_map, map_length. cbn [normB0]. apply col_roundtrip_vector2. exact Hxs.
   - (* Vector3 *)
     destruct (homog_ok VVector3 (fun z => vec3_ok z = true) vs) as (xs & -> & Hxs).
-    { intros v Hv. specialize (HF v Hv). destruct v; try discriminate HF. cbn [cell_ok] in HF. bsplit. eauto. }
-    assert (cty = VT_Vector3) as -> by (destruct v0; try discriminate H0; cbn [cell_ok] in H0; bsplit; now apply N.eqb_eq).
-    rewrite map_map, map_length. cbn [normB]. apply col_roundtrip_vector3. exact Hxs.
+    { intros v Hv. specialize (HF v Hv). destruct v; try discriminate HF. cbn [cell_ok0] in HF. bsplit. eauto. }
+    assert (cty = VT_Vector3) as -> by (destruct v0; try discriminate H0; cbn [cell_ok0] in H0; bsplit; now apply N.eqb_eq).
+    rewrite map_map, map_length. cbn [normB0]. apply col_roundtrip_vector3. exact Hxs.
   - (* CFrame *)
     destruct (homog_ok VCFrame (fun z => cframe_ok z = true) vs) as (xs & -> & Hxs).
-    { intros v Hv. specialize (HF v Hv). destruct v; try discriminate HF. cbn [cell_ok] in HF. bsplit. eauto. }
-    assert (cty = VT_CFrame) as -> by (destruct v0; try discriminate H0; cbn [cell_ok] in H0; bsplit; now apply N.eqb_eq).
-    rewrite map_map, map_length. cbn [normB]. apply BinValuesFacts3.col_roundtrip_cframe. exact Hxs.
+    { intros v Hv. specialize (HF v Hv). destruct v; try discriminate HF. cbn [cell_ok0] in HF. bsplit. eauto. }
+    assert (cty = VT_CFrame) as -> by (destruct v0; try discriminate H0; cbn [cell_ok0] in H0; bsplit; now apply N.eqb_eq).
+    rewrite map_map, map_length. cbn [normB0]. apply BinValuesFacts3.col_roundtrip_cframe. exact Hxs.
   - (* Enum *)
     destruct (homog_ok VEnum (fun n => n < 2 ^ 32) vs) as (xs & -> & Hxs).
-    { intros v Hv. specialize (HF v Hv). destruct v; try discriminate HF. cbn [cell_ok] in HF. bsplit. eauto. }
-    assert (cty = VT_Enum) as -> by (destruct v0; try discriminate H0; cbn [cell_ok] in H0; bsplit; now apply N.eqb_eq).
-    rewrite map_map, map_length. cbn [normB]. apply col_roundtrip_enum. exact Hxs.
+    { intros v Hv. specialize (HF v Hv). destruct v; try discriminate HF. cbn [cell_ok0] in HF. bsplit. eauto. }
+    assert (cty = VT_Enum) as -> by (destruct v0; try discriminate H0; cbn [cell_ok0] in H0; bsplit; now apply N.eqb_eq).
+    rewrite map_map, map_length. cbn [normB0]. apply col_roundtrip_enum. exact Hxs.
   - (* Ref *)
     destruct (homog_ok VRef (fun _ => True) vs) as (xs & -> & _).
     { intros v Hv. specialize (HF v Hv). destruct v; try discriminate HF. eauto. }
     assert (cty = VT_Ref) as -> by (destruct v0; try discriminate H0; now apply N.eqb_eq).
-    rewrite map_map, map_length. cbn [normB]. apply col_roundtrip_ref. apply Forall_forall. intros r _. apply Href.
+    rewrite map_map, map_length. cbn [normB0]. apply col_roundtrip_ref. apply Forall_forall. intros r _. apply Href.
+  - (* Vector3int16 *)
+    destruct (homog_ok (fun q => VVector3int16 (fst (fst q)) (snd (fst q)) (snd q)) (fun q => v3i16_ok q = true) vs) as (xs & -> & Hxs).
+    { intros v Hv. specialize (HF v Hv). destruct v; try discriminate HF. cbn [cell_ok0] in HF. bsplit. exists (x, y, z). split; [reflexivity|]. unfold v3i16_ok. cbn [fst snd]. now rewrite H1, H2, H3. }
+    assert (cty = VT_Vector3int16) as -> by (destruct v0; try discriminate H0; cbn [cell_ok0] in H0; bsplit; now apply N.eqb_eq).
+    rewrite map_map, map_length. cbn [normB0]. apply col_roundtrip_vector3int16. exact Hxs.
+  - (* NumberSequence *)
+    destruct (homog_ok VNumberSequence (fun q => BinValuesFacts3.nseq_ok (dc_lim dc) q = true) vs) as (xs & -> & Hxs).
+    { intros v Hv. specialize (HF v Hv). destruct v; try discriminate HF. cbn [cell_ok0] in HF. rewrite Hlim. bsplit. eauto. }
+    assert (cty = VT_NumberSequence) as -> by (destruct v0; try discriminate H0; cbn [cell_ok0] in H0; bsplit; now apply N.eqb_eq).
+    rewrite map_map, map_length. cbn [normB0]. apply BinValuesFacts3.col_roundtrip_numbersequence. exact Hxs.
+  - (* ColorSequence *)
+    destruct (homog_ok VColorSequence (fun q => BinValuesFacts3.cseq_ok (dc_lim dc) q = true) vs) as (xs & -> & Hxs).
+    { intros v Hv. specialize (HF v Hv). destruct v; try discriminate HF. cbn [cell_ok0] in HF. rewrite Hlim. bsplit. eauto. }
+    assert (cty = VT_ColorSequence) as -> by (destruct v0; try discriminate H0; cbn [cell_ok0] in H0; bsplit; now apply N.eqb_eq).
+    rewrite map_map, map_length. cbn [normB0]. apply BinValuesFacts3.col_roundtrip_colorsequence. exact Hxs.
   - (* NumberRange *)
     destruct (homog_ok (fun q => VNumberRange (fst q) (snd q)) (fun q => f32_ok (fst q) = true /\ f32_ok (snd q) = true) vs) as (xs & -> & Hxs).
-    { intros v Hv. specialize (HF v Hv). destruct v; try discriminate HF. cbn [cell_ok] in HF. bsplit. exists (lo, hi). auto. }
-    assert (cty = VT_NumberRange) as -> by (destruct v0; try discriminate H0; cbn [cell_ok] in H0; bsplit; now apply N.eqb_eq).
-    rewrite map_map, map_length. cbn [normB]. apply col_roundtrip_numberrange. exact Hxs.
+    { intros v Hv. specialize (HF v Hv). destruct v; try discriminate HF. cbn [cell_ok0] in HF. bsplit. exists (lo, hi). auto. }
+    assert (cty = VT_NumberRange) as -> by (destruct v0; try discriminate H0; cbn [cell_ok0] in H0; bsplit; now apply N.eqb_eq).
+    rewrite map_map, map_length. cbn [normB0]. apply col_roundtrip_numberrange. exact Hxs.
   - (* Rect *)
     destruct (homog_ok (fun q => VRect (fst q) (snd q)) (fun q => vec2_ok (fst q) = true /\ vec2_ok (snd q) = true) vs) as (xs & -> & Hxs).
-    { intros v Hv. specialize (HF v Hv). destruct v; try discriminate HF. cbn [cell_ok] in HF. bsplit. exists (lo, hi). auto. }
-    assert (cty = VT_Rect) as -> by (destruct v0; try discriminate H0; cbn [cell_ok] in H0; bsplit; now apply N.eqb_eq).
-    rewrite map_map, map_length. cbn [normB]. apply col_roundtrip_rect. exact Hxs.
+    { intros v Hv. specialize (HF v Hv). destruct v; try discriminate HF. cbn [cell_ok0] in HF. bsplit. exists (lo, hi). auto. }
+    assert (cty = VT_Rect) as -> by (destruct v0; try discriminate H0; cbn [cell_ok0] in H0; bsplit; now apply N.eqb_eq).
+    rewrite map_map, map_length. cbn [normB0]. apply col_roundtrip_rect. exact Hxs.
+  - (* PhysicalProperties *)
+    destruct (homog_ok VPhysicalProperties (fun q => physopt_ok q = true) vs) as (xs & -> & Hxs).
+    { intros v Hv. specialize (HF v Hv). destruct v; try discriminate HF. cbn [cell_ok0] in HF. bsplit. eauto. }
+    assert (cty = VT_PhysicalProperties) as -> by (destruct v0; try discriminate H0; cbn [cell_ok0] in H0; bsplit; now apply N.eqb_eq).
+    rewrite map_map, map_length. cbn [normB0]. apply col_roundtrip_physicalproperties. exact Hxs.
   - (* Color3uint8, also Color3 values (quantised) *)
     destruct (homog_ok c3_value (fun _ => True) vs) as (xs & -> & _).
     { intros v Hv. specialize (HF v Hv). destruct v; try discriminate HF; [exists (C3f r g b)|exists (C3u r g b)]; auto. }
     assert (Hc : cty = VT_Color3 \/ cty = VT_Color3uint8).
-    { destruct v0; try discriminate H0; cbn [cell_ok] in H0; apply orb_true_iff in H0; destruct H0 as [H0|H0]; apply N.eqb_eq in H0; auto. }
+    { destruct v0; try discriminate H0; cbn [cell_ok0] in H0; apply orb_true_iff in H0; destruct H0 as [H0|H0]; apply N.eqb_eq in H0; auto. }
     rewrite map_map, map_length.
     destruct (col_roundtrip_color3uint8_mixed c dc cty xs [] Hc) as (b & Hb1 & Hb2). exists b. split; [exact Hb1|]. rewrite Hb2.
     f_equal. f_equal. apply map_ext. intros [r g b0|r g b0]; reflexivity.
   - (* Int64 *)
     destruct (homog_ok VInt64 (fun z => in_i64 z = true) vs) as (xs & -> & Hxs).
-    { intros v Hv. specialize (HF v Hv). destruct v; try discriminate HF. cbn [cell_ok] in HF. bsplit. eauto. }
-    assert (cty = VT_Int64) as -> by (destruct v0; try discriminate H0; cbn [cell_ok] in H0; bsplit; now apply N.eqb_eq).
-    rewrite map_map, map_length. cbn [normB]. apply col_roundtrip_int64. exact Hxs.
+    { intros v Hv. specialize (HF v Hv). destruct v; try discriminate HF. cbn [cell_ok0] in HF. bsplit. eauto. }
+    assert (cty = VT_Int64) as -> by (destruct v0; try discriminate H0; cbn [cell_ok0] in H0; bsplit; now apply N.eqb_eq).
+    rewrite map_map, map_length. cbn [normB0]. apply col_roundtrip_int64. exact Hxs.
+  - (* SharedString: the index in the writer's table, looked up in the reader's *)
+    destruct (homog_ok VSharedString (fun q => BinValuesFacts3.sstr_ok c dc q = true /\ BinValuesFacts3.sstr_back c dc q = q) vs) as (xs & -> & Hxs).
+    { intros v Hv. pose proof (HF v Hv) as Hc. destruct v; try discriminate Hc. eexists. split; [reflexivity|]. now apply Hss. }
+    assert (cty = VT_SharedString) as -> by (destruct v0; try discriminate H0; now apply N.eqb_eq).
+    rewrite map_map, map_length. cbn [normB0].
+    destruct (BinValuesFacts3.col_roundtrip_sharedstring c dc xs []) as (b & Hb1 & Hb2).
+    { eapply Forall_impl; [|exact Hxs]. now intros a [Ha _]. }
+    exists b. split; [exact Hb1|]. rewrite Hb2. f_equal. f_equal. apply map_ext_in. intros a Ha. rewrite Forall_forall in Hxs.
+    now rewrite (proj2 (Hxs a Ha)).
+  - (* OptionalCFrame *)
+    destruct (homog_ok VOptionalCFrame (fun q => BinValuesFacts3.ocf_ok q = true) vs) as (xs & -> & Hxs).
+    { intros v Hv. specialize (HF v Hv). destruct v; try discriminate HF. cbn [cell_ok0] in HF. bsplit. eauto. }
+    assert (cty = VT_OptionalCFrame) as -> by (destruct v0; try discriminate H0; cbn [cell_ok0] in H0; bsplit; now apply N.eqb_eq).
+    rewrite map_map, map_length. cbn [normB0]. apply BinValuesFacts3.col_roundtrip_optionalcframe. exact Hxs.
+  - (* UniqueId *)
+    destruct (homog_ok (fun q => VUniqueId (fst (fst q)) (snd (fst q)) (snd q)) (fun q => uid_ok q = true) vs) as (xs & -> & Hxs).
+    { intros v Hv. specialize (HF v Hv). destruct v; try discriminate HF. cbn [cell_ok0] in HF. apply andb_true_iff in HF. destruct HF as [_ HF].
+      exists (index, time, random). auto. }
+    assert (cty = VT_UniqueId) as -> by (destruct v0; try discriminate H0; cbn [cell_ok0] in H0; apply andb_true_iff in H0; destruct H0 as [H0 _]; now apply N.eqb_eq).
+    rewrite map_map, map_length. cbn [normB0]. apply col_roundtrip_uniqueid. exact Hxs.
+  - (* Font *)
+    destruct (homog_ok VFont (fun q => BinValuesFacts3.font_ok (dc_lim dc) q = true) vs) as (xs & -> & Hxs).
+    { intros v Hv. specialize (HF v Hv). destruct v; try discriminate HF. cbn [cell_ok0] in HF. rewrite Hlim. bsplit. eauto. }
+    assert (cty = VT_Font) as -> by (destruct v0; try discriminate H0; cbn [cell_ok0] in H0; bsplit; now apply N.eqb_eq).
+    rewrite map_map, map_length. cbn [normB0]. apply BinValuesFacts3.col_roundtrip_font. exact Hxs.
   - (* SecurityCapabilities *)
     destruct (homog_ok VSecurityCapabilities (fun n => n < 2 ^ 64) vs) as (xs & -> & Hxs).
-    { intros v Hv. specialize (HF v Hv). destruct v; try discriminate HF. cbn [cell_ok] in HF. bsplit. eauto. }
-    assert (cty = VT_SecurityCapabilities) as -> by (destruct v0; try discriminate H0; cbn [cell_ok] in H0; bsplit; now apply N.eqb_eq).
-    rewrite map_map, map_length. cbn [normB]. apply col_roundtrip_seccap. exact Hxs.
+    { intros v Hv. specialize (HF v Hv). destruct v; try discriminate HF. cbn [cell_ok0] in HF. bsplit. eauto. }
+    assert (cty = VT_SecurityCapabilities) as -> by (destruct v0; try discriminate H0; cbn [cell_ok0] in H0; bsplit; now apply N.eqb_eq).
+    rewrite map_map, map_length. cbn [normB0]. apply col_roundtrip_seccap. exact Hxs.
+  - (* Content *)
+    destruct (homog_ok VContent (fun q => BinValuesFacts3.content_ok c dc q = true) vs) as (xs & -> & Hxs).
+    { intros v Hv. specialize (HF v Hv). destruct v; try discriminate HF. cbn [cell_ok0] in HF. bsplit. eexists. split; [reflexivity|].
+      unfold BinValuesFacts3.content_ok. rewrite Hlim. destruct c0; auto. }
+    assert (cty = VT_Content) as -> by (destruct v0; try discriminate H0; cbn [cell_ok0] in H0; bsplit; now apply N.eqb_eq).
+    rewrite map_length in Hn. rewrite map_map, map_length. cbn [normB0].
+    destruct (BinValuesFacts3.col_roundtrip_content c dc xs [] Hn) as (b & Hb1 & Hb2); [rewrite Hlim; reflexivity|rewrite Hlim; reflexivity|exact Hxs|].
+    exists b. split; [exact Hb1|]. rewrite Hb2. first [reflexivity | f_equal; f_equal; apply map_ext; intros [|u|r]; reflexivity].
+Qed.
+
+Lemma canonv_idem wt v : canonv wt (canonv wt v) = canonv wt v.
+Proof. destruct wt, v; reflexivity. Qed.
+
+(* the column law for every column of accepted cells *)
+Theorem known_col_roundtrip wt cty vs :
+  vs <> [] -> N.of_nat (length vs) < 2 ^ 32 -> Forall (fun v => cell_ok wt cty v = true) vs ->
+  (forall s, In (VSharedString s) vs -> BinValuesFacts3.sstr_ok c dc s = true /\ BinValuesFacts3.sstr_back c dc s = s) ->
+  exists b, enc_col wt c vs = Ok b /\
+            dec_col wt cty dc (length vs) (b ++ []) =
+            Ok (List.map (normB (ec_quant c) (fun r => dc_resolve dc (ref_id c r)) wt cty) vs, []).
+Proof.
+  intros Hne Hn HF Hss.
+  destruct (known_col_roundtrip0 wt cty (List.map (canonv wt) vs)) as (b & Hb1 & Hb2).
+  - destruct vs; [congruence|discriminate].
+  - now rewrite map_length.
+  - apply Forall_forall. intros v Hv. apply in_map_iff in Hv. destruct Hv as (w & <- & Hw). rewrite Forall_forall in HF. exact (HF w Hw).
+  - intros s Hs. apply Hss. apply in_map_iff in Hs. destruct Hs as (w & E & Hw).
+    assert (w = VSharedString s) by (destruct wt, w; try discriminate E; auto). now subst w.
+  - exists b. rewrite enc_col_canon in Hb1. split; [exact Hb1|]. rewrite map_length, map_map in Hb2. exact Hb2.
 Qed.
 End KnownCol.
+
+(* ---- normB, named per kind of cell ---- *)
+Lemma normB_widen_int q rn cty z : normB q rn WInt64 cty (VInt32 z) = VInt64 z.
+Proof. reflexivity. Qed.
+Lemma normB_widen_float q rn cty x : normB q rn WFloat64 cty (VFloat32 x) = VFloat64 (f64_of_f32 x).
+Proof. reflexivity. Qed.
+Lemma normB_int32_for_int64 q rn z : normB q rn WInt32 VT_Int64 (VInt32 z) = VInt64 z.
+Proof. reflexivity. Qed.
+Lemma normB_float32_for_float64 q rn x : normB q rn WFloat32 VT_Float64 (VFloat32 x) = VFloat64 (f64_of_f32 x).
+Proof. reflexivity. Qed.
+Lemma normB_enumitem q rn cty t n : normB q rn WEnum cty (VEnumItem t n) = VEnum n.
+Proof. reflexivity. Qed.
+Lemma normB_int_brickcolor q rn cty z : normB q rn WBrickColor cty (VInt32 z) = VBrickColor (wrap_u 32 z).
+Proof. reflexivity. Qed.
+Lemma normB_font q rn cty f : normB q rn WFont cty (VFont f) = VFont (BinValuesFacts3.norm_font f).
+Proof. reflexivity. Qed.
+Lemma normB_optionalcframe q rn cty o : normB q rn WOptionalCFrame cty (VOptionalCFrame o) = VOptionalCFrame (BinValuesFacts3.norm_ocf o).
+Proof. reflexivity. Qed.
+Lemma normB_string q rn s : normB q rn WString VT_Str (VString s) = VString (str_norm s).
+Proof. reflexivity. Qed.
+Lemma normB_string_valid q rn s : utf8_valid s = true -> normB q rn WString VT_Str (VString s) = VString s.
+Proof. intros H. rewrite normB_string. now rewrite str_norm_valid. Qed.
+(* Attributes (serialized through a BinaryString-typed name, read for a property declared Attributes): AttrFacts.norm *)
+Lemma normB_attributes q rn m b : wf_amap m = true -> attr_encode m = Ok b ->
+  normB q rn WString VT_Attributes (VAttributes m) = VAttributes (norm m).
+Proof.
+  intros Hwf Henc. unfold normB, normB0. cbn [canonv spay]. rewrite Henc. unfold normS.
+  change (N.eqb VT_Attributes VT_Str) with false. change (N.eqb VT_Attributes VT_ContentId) with false.
+  change (N.eqb VT_Attributes VT_BinaryString) with false. change (N.eqb VT_Attributes VT_Tags) with false.
+  change (N.eqb VT_Attributes VT_Attributes) with true. cbv iota. now rewrite (attr_roundtrip m b Hwf Henc).
+Qed.
+Lemma cell_ok_attributes m b : wf_amap m = true -> attr_encode m = Ok b -> bstr_ok None b = true ->
+  cell_ok WString VT_Attributes (VAttributes m) = true.
+Proof.
+  intros Hwf Henc Hb. unfold cell_ok. cbn [canonv cell_ok0 spay]. rewrite Henc, Hb. cbn [andb]. unfold str_arm_ok.
+  change (N.eqb VT_Attributes VT_Str) with false. change (N.eqb VT_Attributes VT_ContentId) with false.
+  change (N.eqb VT_Attributes VT_BinaryString) with false. change (N.eqb VT_Attributes VT_Tags) with false.
+  change (N.eqb VT_Attributes VT_Attributes) with true. cbv iota. now rewrite (attr_roundtrip m b Hwf Henc).
+Qed.
+
 
 (* ========================================================================================== *)
 (* G3, part 2: every cell of every planned column meets the column law's side conditions        *)
@@ -1846,7 +2063,10 @@ Definition pair_cells_ok (d : db) (ep : enc_params) (class : bytes) (pv : bytes 
   end.
 
 Lemma cell_ok_val wt cty v : cell_ok wt cty v = true -> val_accepts wt v = true.
-Proof. destruct wt, v; cbn [cell_ok]; try discriminate; reflexivity. Qed.
+Proof.
+  unfold cell_ok, val_accepts. destruct wt, v; cbn [canonv cell_ok0 spay col_accepts]; try discriminate; try reflexivity.
+  destruct (attr_encode m); try discriminate; reflexivity.
+Qed.
 
 Lemma pair_cells_pair_ok d ep class pv : pair_cells_ok d ep class pv = true -> pair_ok d ep class pv = true.
 Proof.
@@ -2044,22 +2264,56 @@ Definition known_read (d : db) (ep : enc_params) (dom : cdom) (st : ser_state) :
                  List.map (normB (ep_quant ep) (BinRoundTrip.ref_new st) (pi_type (snd (snd x))) (cty_of d x))
                           (BinRoundTrip.col_values ep dom x)).
 
+Lemma index_of_spec s : forall l n k, index_of s l n = Some k ->
+  exists j, k = n + N.of_nat j /\ (j < length l)%nat /\ nth j l [] = s.
+Proof.
+  induction l as [|x l IH]; intros n k H; cbn [index_of] in H; [discriminate|].
+  destruct (bytes_eqb s x) eqn:E.
+  - injection H as <-. apply bytes_eqb_eq in E. subst x. exists 0%nat. cbn. split; [lia|split; [lia|reflexivity]].
+  - destruct (IH _ _ H) as (j & -> & Hj & Hn). exists (S j). cbn [length nth]. split; [lia|split; [lia|exact Hn]].
+Qed.
+
+Lemma stI_sstr st : ds_sstr (BinRoundTrip.stI_of st) = ss_sstr st.
+Proof.
+  unfold BinRoundTrip.stI_of, BinRoundTrip.after_insts.
+  assert (G : forall l ds, ds_sstr (fold_left (BinRoundTrip.reg_class st) l ds) = ds_sstr ds).
+  { induction l as [|ct l IH]; intros ds; [reflexivity|]. cbn [fold_left]. now rewrite IH. }
+  now rewrite G.
+Qed.
+
+Lemma normB_rn_ext q rn rn' wt cty v : (forall r, rn r = rn' r) -> normB q rn wt cty v = normB q rn' wt cty v.
+Proof.
+  intros H. unfold normB, normB0. destruct wt; try reflexivity; destruct (canonv _ v); try reflexivity; try (now rewrite H);
+    destruct c; try reflexivity; now rewrite H.
+Qed.
+
 Lemma known_col_law d ep p dom ts st (x : BinRoundTrip.column) cty :
   add_instances d ep dom (List.map root ts) = Ok st -> NoDup (ss_relevant st) ->
   (Z.of_nat (length (ss_relevant st)) <= 2147483647)%Z -> dp_lim p = None ->
   find_canonical_property d (pi_type (snd (snd x))) (fst (fst x)) (pi_ser_name (snd (snd x))) = Ok (Some (fst (snd x), cty, None)) ->
-  BinRoundTrip.col_values ep dom x <> [] ->
+  BinRoundTrip.col_values ep dom x <> [] -> N.of_nat (length (BinRoundTrip.col_values ep dom x)) < 2 ^ 32 ->
   Forall (fun v => cell_ok (pi_type (snd (snd x))) cty v = true) (BinRoundTrip.col_values ep dom x) ->
+  N.of_nat (length (ss_sstr st)) < 2 ^ 32 ->
+  (forall v, In v (BinRoundTrip.col_values ep dom x) -> sstr_known (enc_ctx_of ep st) v = true) ->
   BinRoundTrip.col_law d ep p dom st (BinRoundTrip.stI_of st) x (known_read d ep dom st x).
 Proof.
-  intros Hst Hndr Hlen Hlim Hfc Hne HF. unfold BinRoundTrip.col_law, known_read. cbv zeta.
+  intros Hst Hndr Hlen Hlim Hfc Hne Hn HF Hssl Hkn. unfold BinRoundTrip.col_law, known_read. cbv zeta.
   assert (Ec : cty_of d x = cty) by (unfold cty_of; now rewrite Hfc). rewrite Ec.
   exists cty. split; [exact Hfc|]. intros ds Hsk.
+  assert (Hss : forall s, In (VSharedString s) (BinRoundTrip.col_values ep dom x) ->
+            BinValuesFacts3.sstr_ok (enc_ctx_of ep st) (BinChunkFacts.prop_dctx p ds) s = true /\
+            BinValuesFacts3.sstr_back (enc_ctx_of ep st) (BinChunkFacts.prop_dctx p ds) s = s).
+  { intros s Hs. specialize (Hkn _ Hs). cbn [sstr_known enc_ctx_of ec_sstr] in Hkn.
+    unfold BinValuesFacts3.sstr_ok, BinValuesFacts3.sstr_back, BinValuesFacts3.sstr_id. cbn [enc_ctx_of ec_sstr BinChunkFacts.prop_dctx dc_sstr].
+    rewrite (proj1 Hsk), stI_sstr.
+    destruct (index_of s (ss_sstr st) 0) as [k|] eqn:Ek; [|discriminate].
+    destruct (index_of_spec s (ss_sstr st) 0 k Ek) as (j & -> & Hj & Hnth). cbn [N.add].
+    split; [|now rewrite Nnat.Nat2N.id].
+    apply andb_true_iff. split; apply N.ltb_lt; [change 4294967296 with (2 ^ 32)|]; lia. }
   destruct (known_col_roundtrip (enc_ctx_of ep st) (BinChunkFacts.prop_dctx p ds) Hlim
-              (fun r => BinRoundTrip.fz_range st r Hlen) (pi_type (snd (snd x))) cty _ Hne HF) as (b & Hb1 & Hb2).
+              (fun r => BinRoundTrip.fz_range st r Hlen) (pi_type (snd (snd x))) cty _ Hne Hn HF Hss) as (b & Hb1 & Hb2).
   exists b. split; [exact Hb1|]. rewrite Hb2. f_equal. f_equal. apply map_ext. intros v.
-  destruct v; try reflexivity. cbn [normB]. f_equal.
-  apply (BinRoundTrip.resolve_ref d ep p dom ts st ds r Hst Hndr Hsk).
+  apply normB_rn_ext. intros r. apply (BinRoundTrip.resolve_ref d ep p dom ts st ds r Hst Hndr Hsk).
 Qed.
 
 (* the property list the reader collects for the written instance r *)
@@ -2162,12 +2416,27 @@ Proof.
     + exact (proj2 (Hcols c ti canon pi Hct Hcp)).
 Qed.
 
-Lemma cell_not_uid q rn wt cty v : cell_ok wt cty v = true -> forall a b c, normB q rn wt cty v <> VUniqueId a b c.
-Proof. intros H a b c. destruct wt, v; try discriminate H; cbn [normB]; try discriminate; destruct (N.eqb cty VT_BinaryString); discriminate. Qed.
+Lemma normS_not_uid cty p a b c : normS cty p <> VUniqueId a b c.
+Proof.
+  unfold normS. repeat match goal with |- context [if ?x then _ else _] => destruct x end; try discriminate.
+  - destruct (tags_decode p); discriminate.
+  - destruct (attr_decode p); discriminate.
+  - destruct (matcol_decode p); discriminate.
+Qed.
+
 
 (* ========================================================================================== *)
 (* G3: the closed whole-file statement for database-known (and unknown) properties              *)
 (* ========================================================================================== *)
+(* [w] is read back under [canon]; the one exception is WeakDom's rule for the property "UniqueId": a UniqueId already in use
+   in the DOM being built is replaced by a fresh one (dp_fresh_uid) *)
+Definition reads_back (p : dec_params) (canon : bytes) (w : value) (props' : list (bytes * value)) : Prop :=
+  bfind canon props' = Some w \/
+  (canon = UNIQUE_ID /\ (exists a b c, w = VUniqueId a b c) /\ bfind canon props' = Some (dp_fresh_uid p)).
+
+Lemma reads_back_plain p canon w props' : canon <> UNIQUE_ID -> reads_back p canon w props' -> bfind canon props' = Some w.
+Proof. intros Hn [H|[E _]]; [exact H|contradiction]. Qed.
+
 Theorem known_props_roundtrip d ep cmp dom ts p :
   enc_ready d ep dom ts -> BinRoundTrip.input_ok dom ts -> BinRoundTrip.names_ok dom ->
   dom_spellings_agree d dom -> (forall i, In i dom -> class_good d (i_class i)) ->
@@ -2192,11 +2461,11 @@ Theorem known_props_roundtrip d ep cmp dom ts p :
             (* own value: normB of the value after the migration of its own spelling *)
             (inst_one_spelling d i -> forall n v s ty m, In (n, v) (i_props i) ->
                resolve_prop d cn n v = Ok (RProp canon s ty m) ->
-               bfind canon (i_props i') = Some (normB (ep_quant ep) (BinRoundTrip.ref_new st) (pi_type pi) cty (migv ep m v))) /\
+               reads_back p canon (normB (ep_quant ep) (BinRoundTrip.ref_new st) (pi_type pi) cty (migv ep m v)) (i_props i')) /\
             (* no spelling of it, but a class-mate had one: the default of the instance's class (after the column's migration, as the
                serializer applies it) *)
             ((forall n v s ty m, In (n, v) (i_props i) -> resolve_prop d cn n v <> Ok (RProp canon s ty m)) ->
-               bfind canon (i_props i') = Some (normB (ep_quant ep) (BinRoundTrip.ref_new st) (pi_type pi) cty (migv ep (pi_migration pi) (pi_default pi))) /\
+               reads_back p canon (normB (ep_quant ep) (BinRoundTrip.ref_new st) (pi_type pi) cty (migv ep (pi_migration pi) (pi_default pi))) (i_props i') /\
                exists ty0, col_plan d (get_class d (string_of_bytes cn)) canon ty0 = Ok (pi_default pi, pi_type pi)).
 Proof.
   intros Hr Hin Hnames HS Hgood Hvals Hss Hlim Hframe.
@@ -2222,9 +2491,16 @@ Proof.
     apply (known_col_law d ep p dom ts st (c, ti, (canon, pi)) cty Hadd Hndr Hlen Hlim); cbn [fst snd].
     - exact Hfc.
     - unfold BinRoundTrip.col_values. destruct (ti_instances ti) eqn:E; [now destruct (inv_nonempty _ _ Hinv c ti Hct)|discriminate].
+    - unfold BinRoundTrip.col_values. rewrite !map_length. rewrite (inv_insts _ _ Hinv c ti Hct).
+      pose proof (filter_length_le' (of_class dom c) (ss_relevant st)). change (2 ^ 32) with 4294967296. lia.
     - unfold BinRoundTrip.col_values. apply Forall_forall. intros v Hv. apply in_map_iff in Hv. destruct Hv as (i & <- & Hi).
       apply in_map_iff in Hi. destruct Hi as (r & <- & Hri). destruct (Hsrc c ti r Hct Hri) as (i & Hfi & ->).
-      apply (Hcells r i Hri Hfi). }
+      apply (Hcells r i Hri Hfi).
+    - exact (proj1 Hsstr).
+    - unfold BinRoundTrip.col_values. intros v Hv. apply in_map_iff in Hv. destruct Hv as (i & <- & Hi).
+      apply in_map_iff in Hi. destruct Hi as (r & <- & Hri). destruct (Hsrc c ti r Hct Hri) as (i & Hfi & ->).
+      pose proof (planned_columns_accept d ep dom st st0 c ti canon pi r i HA Hgood Hok (er_order _ _ _ _ Hr) Hinv Hg0 Hty Hperm Hct Hcp Hri Hfi) as Hacc.
+      rewrite col_accepts_split in Hacc. apply andb_true_iff in Hacc. exact (proj2 Hacc). }
   exists b, st, out. split; [exact Hb|]. split; [exact Hadd|]. split; [exact Hdec|]. split; [exact Hforest|].
   intros cn ti k r Hct Hk. pose proof (nth_error_In _ _ Hk) as Hri.
   destruct (Hsrc cn ti r Hct Hri) as (i & Hfi & Hsrci).
@@ -2239,12 +2515,10 @@ Proof.
                  migv ep (pi_migration pi) v = migv ep m v)).
   { intros canon pi Hcp Hn. destruct (proj1 (Hcols cn ti canon pi Hct Hcp) Hn) as (cty & Hfc & Hcells & _).
     exists cty. split; [exact Hfc|]. split; [unfold cty_of; cbn [fst snd]; now rewrite Hfc|]. apply (Hcells r i Hri Hfi). }
-  apply (BinRoundTrip.uid_norm_eq p _ _) in H5.
-  2:{ intros a b0 c0 Hi. apply BinRoundTrip.collect_props_in in Hi. unfold known_props in Hi. apply in_map_iff in Hi.
-      destruct Hi as ([canon pi] & E & Hcp). cbn [fst snd] in E. injection E as _ E.
-      apply filter_In in Hcp. destruct Hcp as [Hcp Hnn]. cbn [fst] in Hnn. apply negb_true_iff in Hnn.
-      destruct (Hmine canon pi Hcp (bytes_eqb_false_neq _ _ Hnn)) as (cty & _ & Ec & Hcell & _). rewrite Ec, Hsrci in E.
-      revert E. now apply cell_not_uid. }
+  assert (Hkeyin : forall k0 v, In (k0, v) (i_props i') -> exists v', In (k0, v') (collect_props (known_props d ep dom st cn ti r))).
+  { destruct H5 as [-> | (a & b0 & c0 & Hf & ->)]; [eauto|]. intros k0 v [E|Hkv].
+    - injection E as <- _. exists (VUniqueId a b0 c0). now apply bfind_in.
+    - exists v. now apply (BinRoundTrip.bremove_incl UNIQUE_ID). }
   assert (Hb' : bfind cn (ss_types st0) = Some ti).
   { rewrite <- Hty. apply in_bfind; [|exact Hct]. apply sorted_NoDup. exact (inv_sorted _ _ Hinv). }
   destruct (proj1 Hg0 cn ti Hb') as (_ & _ & M0 & _). pose proof (M0 r i Hri Hfi) as Hcl.
@@ -2254,167 +2528,27 @@ Proof.
                   = List.map fst (filter (fun cp => negb (bytes_eqb (fst cp) NAME)) (ti_props ti))).
   { unfold known_props. rewrite map_map. reflexivity. }
   split.
-  - intros k0 v Hkv. rewrite H5 in Hkv. apply BinRoundTrip.collect_props_in in Hkv. unfold known_props in Hkv.
+  - intros k0 v0 Hkv0. destruct (Hkeyin k0 v0 Hkv0) as [v Hkv]. apply BinRoundTrip.collect_props_in in Hkv. unfold known_props in Hkv.
     apply in_map_iff in Hkv. destruct Hkv as ([canon pi] & E & Hcp). cbn [fst snd] in E. injection E as <- _.
     apply filter_In in Hcp. destruct Hcp as [Hcp Hnn]. cbn [fst] in Hnn. apply negb_true_iff in Hnn.
     split; [now apply bytes_eqb_false_neq|eauto].
   - intros canon pi Hcp Hn. destruct (Hmine canon pi Hcp Hn) as (cty & Hfc & Ec & Hcell & Hmg). exists cty. split; [exact Hfc|].
-    assert (Hread : bfind canon (i_props i') =
+    assert (Hread0 : bfind canon (collect_props (known_props d ep dom st cn ti r)) =
                     Some (normB (ep_quant ep) (BinRoundTrip.ref_new st) (pi_type pi) cty (prop_value ep canon pi (ep_order ep (pi_aliases pi)) i))).
-    { rewrite H5. apply collect_props_nodup.
+    { apply collect_props_nodup.
       - rewrite Hkeys. apply nodup_keys_filter. exact (Hnd cn ti Hct).
       - unfold known_props. apply in_map_iff. exists (canon, pi). cbn [fst snd]. rewrite Ec, Hsrci. split; [reflexivity|].
         apply filter_In. split; [exact Hcp|]. cbn [fst]. apply negb_true_iff. now apply bytes_eqb_neq. }
+    assert (Hrb : reads_back p canon (normB (ep_quant ep) (BinRoundTrip.ref_new st) (pi_type pi) cty
+                                            (prop_value ep canon pi (ep_order ep (pi_aliases pi)) i)) (i_props i')).
+    { destruct H5 as [-> | (a & b0 & c0 & Hf & ->)]; [left; exact Hread0|]. destruct (bytes_eq_dec canon UNIQUE_ID) as [->|Hne].
+      - right. split; [reflexivity|]. split; [rewrite Hf in Hread0; injection Hread0 as <-; eauto|].
+        unfold bupd. cbn [bfind]. now rewrite bytes_eqb_refl.
+      - left. unfold bupd. cbn [bfind]. rewrite (bytes_eqb_neq _ _ Hne), bfind_bremove', (bytes_eqb_neq _ _ Hne). exact Hread0. }
     destruct (written_columns_spec d ep dom ts st Hr HA Hgood Hok Hadd cn ti canon pi r i Hct Hcp Hn Hri Hfi) as (_ & Hown & Hdef).
     split.
-    + intros H1s n v s ty m Hinv' Hres. rewrite Hread, (Hown H1s n v s ty m Hinv' Hres), (Hmg n v s ty m Hinv' Hres). reflexivity.
-    + intros Hno. destruct (Hdef Hno) as [Hv Hty0]. rewrite Hread, Hv. split; [reflexivity|exact Hty0].
+    + intros H1s n v s ty m Hinv' Hres. rewrite (Hown H1s n v s ty m Hinv' Hres), (Hmg n v s ty m Hinv' Hres) in Hrb. exact Hrb.
+    + intros Hno. destruct (Hdef Hno) as [Hv Hty0]. rewrite Hv in Hrb. split; [exact Hrb|exact Hty0].
 Qed.
 Print Assumptions known_props_roundtrip.
 
-(* ========================================================================================== *)
-(* G3 on the database the crates load                                                          *)
-(* ========================================================================================== *)
-(* diagnosis, per class: the names whose serialized name the reader does not map back to the same canonical name
-   without migration (the per-pair check [pair_cells_ok] fails for values of these properties) *)
-Definition back_offenders_class (d : db) (c : cdesc) : list (string * string) :=
-  flat_map (fun pn =>
-    match known_resolve d (cd_name c) pn with
-    | Ok (Some (RProp cn s ty m)) =>
-        match col_plan d (Some c) cn ty with
-        | Ok (_, wt) =>
-            match find_canonical_property d wt (bstr (cd_name c)) s with
-            | Ok (Some (c', _, None)) => if bytes_eqb c' cn then [] else [(cd_name c, pn)]
-            | _ => [(cd_name c, pn)]
-            end
-        | _ => []
-        end
-    | _ => []
-    end) (visible_names d c).
-Definition back_offenders (d : db) : list (string * string) := flat_map (back_offenders_class d) (db_classes d).
-
-(* the two properties whose serialized name belongs to another property (cf. DbFacts.bundled_names_roundtrip_refuted) *)
-Theorem bundled_back_offenders :
-  back_offenders Database.database = [("MaterialService", "Use2022Materials"); ("Sound", "MaxDistance")]%string.
-Proof. vm_cast_no_check (eq_refl (back_offenders Database.database)). Qed.
-
-Lemma pairs_nodup_agree (l : list (bytes * value)) : NoDup (List.map fst l) ->
-  forall n v1 v2, In (n, v1) l -> In (n, v2) l -> v1 = v2.
-Proof. intros Hnd n v1 v2 H1 H2. pose proof (in_bfind _ _ _ Hnd H1) as E1. rewrite (in_bfind _ _ _ Hnd H2) in E1. congruence. Qed.
-
-(* the database hypotheses discharged: class_good by bundled_class_good, the consistency of spellings by bundled_agree *)
-Corollary known_props_roundtrip_bundled ep cmp dom ts p :
-  enc_ready Database.database ep dom ts -> BinRoundTrip.input_ok dom ts -> BinRoundTrip.names_ok dom ->
-  (forall cn n v1 v2, In (n, v1) (class_pairs dom cn) -> In (n, v2) (class_pairs dom cn) ->
-     known_resolve Database.database (string_of_bytes cn) (string_of_bytes n) = Ok None -> vtype v1 = vtype v2) ->
-  dom_values_ok Database.database ep dom = true -> dom_sstrs_ok Database.database dom = true ->
-  dp_lim p = None ->
-  (forall e, encode_chunks Database.database ep dom (List.map root ts) = Ok e -> BinRoundTrip.frame_ok p cmp e) ->
-  exists b st out,
-    encode_file Database.database ep cmp dom (List.map root ts) = Ok b /\
-    add_instances Database.database ep dom (List.map root ts) = Ok st /\
-    decode_file Database.database p b = Ok out /\
-    BinRoundTrip.same_forest dom ts (BinRoundTrip.lbl st) out /\
-    forall cn ti k r, In (cn, ti) (ss_types st) -> nth_error (ti_instances ti) k = Some r ->
-      exists i i', find_inst dom r = Some i /\ i_class i = cn /\
-        find_inst out (BinRoundTrip.lbl st r) = Some i' /\ i_ref i' = BinRoundTrip.lbl st r /\
-        i_class i' = cn /\ i_name i' = i_name i /\
-        (forall k v, In (k, v) (i_props i') -> k <> NAME /\ exists pi, In (k, pi) (ti_props ti)) /\
-        forall canon pi, In (canon, pi) (ti_props ti) -> canon <> NAME ->
-          exists cty,
-            find_canonical_property Database.database (pi_type pi) cn (pi_ser_name pi) = Ok (Some (canon, cty, None)) /\
-            (inst_one_spelling Database.database i -> forall n v s ty m, In (n, v) (i_props i) ->
-               resolve_prop Database.database cn n v = Ok (RProp canon s ty m) ->
-               bfind canon (i_props i') = Some (normB (ep_quant ep) (BinRoundTrip.ref_new st) (pi_type pi) cty (migv ep m v))) /\
-            ((forall n v s ty m, In (n, v) (i_props i) -> resolve_prop Database.database cn n v <> Ok (RProp canon s ty m)) ->
-               bfind canon (i_props i') = Some (normB (ep_quant ep) (BinRoundTrip.ref_new st) (pi_type pi) cty
-                                                      (migv ep (pi_migration pi) (pi_default pi))) /\
-               exists ty0, col_plan Database.database (get_class Database.database (string_of_bytes cn)) canon ty0
-                           = Ok (pi_default pi, pi_type pi)).
-Proof.
-  intros Hr Hin Hnames Hunk Hvals Hss Hlim Hframe.
-  apply (known_props_roundtrip Database.database ep cmp dom ts p); auto.
-  - intros cn. apply bundled_agree. apply Hunk.
-  - intros i _. apply bundled_class_good.
-Qed.
-
-(* ---- a computed example on the bundled database: a Part with the legacy BrickColor, a Part with Size only, and an instance of a
-   class the database does not know ---- *)
-Definition ep_ex : enc_params := mkEP [] [(21, (196, 40, 28))] (fun _ => 0) (fun l => l) [].
-Definition dp_ex : dec_params := mkDP [] [(21, (196, 40, 28))] (fun _ _ => None) (VUniqueId 0 0 0%Z) None.
-Definition part_a : inst := mkInst 1 0 (bstr "Part") (bstr "A") [(bstr "BrickColor", VBrickColor 21)].
-Definition part_b : inst := mkInst 2 0 (bstr "Part") (bstr "B") [(bstr "Size", VVector3 (mkV3 F32_ONE F32_ONE F32_ONE))].
-Definition odd_c : inst := mkInst 3 0 (bstr "NotAClass") (bstr "C") [(bstr "Flag", VBool true); (bstr "Note", VString [104; 105])].
-Definition ex_dom : cdom := [part_a; part_b; odd_c].
-Definition ex_ts : list tree := [Node 1 []; Node 2 []; Node 3 []].
-Definition obs (r : res cdom) : list (bytes * bytes * list (bytes * value)) :=
-  match r with Ok out => List.map (fun i => (i_class i, i_name i, i_props i)) out | _ => [] end.
-Definition frame_okb (e : encoded) : bool := forallb (fun c => N.ltb (N.of_nat (length (snd c))) 4294967296) (en_chunks e).
-
-Lemma frame_okb_ok p e : frame_okb e = true -> BinRoundTrip.frame_ok p None e.
-Proof.
-  unfold frame_okb, BinRoundTrip.frame_ok. rewrite forallb_forall. intros H. apply Forall_forall. intros c Hc.
-  split; [|exact I]. split; [|exact I]. change (2 ^ 32) with 4294967296. apply N.ltb_lt. now apply H.
-Qed.
-
-Example bundled_example_hypotheses :
-  enc_ready Database.database ep_ex ex_dom ex_ts /\ BinRoundTrip.input_ok ex_dom ex_ts /\ BinRoundTrip.names_ok ex_dom /\
-  (forall cn n v1 v2, In (n, v1) (class_pairs ex_dom cn) -> In (n, v2) (class_pairs ex_dom cn) ->
-     known_resolve Database.database (string_of_bytes cn) (string_of_bytes n) = Ok None -> vtype v1 = vtype v2) /\
-  dom_values_ok Database.database ep_ex ex_dom = true /\ dom_sstrs_ok Database.database ex_dom = true /\
-  (forall e, encode_chunks Database.database ep_ex ex_dom (List.map root ex_ts) = Ok e -> BinRoundTrip.frame_ok dp_ex None e) /\
-  (forall i, In i ex_dom -> inst_one_spelling_b Database.database i = true).
-Proof.
-  assert (Hs : dom_sstrs Database.database ex_dom = []) by (vm_compute; reflexivity).
-  split; [|split; [|split; [|split; [|split; [|split; [|split]]]]]].
-  - constructor.
-    + cbn. repeat constructor; cbn; intuition discriminate.
-    + repeat (constructor; try (vm_compute; reflexivity)).
-    + cbn. repeat constructor; cbn; intuition discriminate.
-    + apply Forall_forall. intros t [<-|[<-|[<-|[]]]]; cbn; auto.
-    + cbn. lia.
-    + intros l. apply Permutation_refl.
-    + intros s H. unfold sstr_src in H. rewrite Hs in H. destruct H.
-  - split; [|split; [|split; [|split]]].
-    + cbn. repeat constructor; cbn; intuition discriminate.
-    + repeat constructor; vm_compute; reflexivity.
-    + repeat (constructor; try (vm_compute; reflexivity)).
-    + cbn. repeat constructor; cbn; intuition discriminate.
-    + cbn. intuition discriminate.
-  - repeat constructor; vm_compute; reflexivity.
-  - intros cn n v1 v2 H1 H2 _. f_equal.
-    assert (Hall : forall x, In x (class_pairs ex_dom cn) -> In x (flat_map i_props ex_dom)).
-    { intros x Hx. unfold class_pairs in Hx. apply in_flat_map in Hx. destruct Hx as (i & Hi & Hx). apply filter_In in Hi.
-      apply in_flat_map. exists i. tauto. }
-    apply (pairs_nodup_agree (flat_map i_props ex_dom)) with (n := n); auto.
-    vm_compute. repeat constructor; cbn; intuition discriminate.
-  - vm_compute. reflexivity.
-  - vm_compute. reflexivity.
-  - intros e He. apply frame_okb_ok.
-    assert (H : match encode_chunks Database.database ep_ex ex_dom (List.map root ex_ts) with Ok e0 => frame_okb e0 | _ => true end = true)
-      by (vm_compute; reflexivity).
-    rewrite He in H. exact H.
-  - intros i [<-|[<-|[<-|[]]]]; vm_compute; reflexivity.
-Qed.
-
-(* the theorem applies, and the decoded DOM computed: Part A reads back Color (canonical; the legacy BrickColor 21 migrated) and the
-   class default of Size; Part B its own Size and the class default of Color; the unknown class its own values (a String as
-   BinaryString); no "BrickColor", no "Color3uint8", no "size" *)
-Example bundled_example_roundtrip :
-  (exists b st out,
-     encode_file Database.database ep_ex None ex_dom (List.map root ex_ts) = Ok b /\
-     add_instances Database.database ep_ex ex_dom (List.map root ex_ts) = Ok st /\
-     decode_file Database.database dp_ex b = Ok out /\
-     BinRoundTrip.same_forest ex_dom ex_ts (BinRoundTrip.lbl st) out) /\
-  obs (b <- encode_file Database.database ep_ex None ex_dom [1; 2; 3] ;; decode_file Database.database dp_ex b)
-  = [(bstr "Part", bstr "A", [(bstr "Size", VVector3 (mkV3 1082130432 1067030938 1073741824)); (bstr "Color", VColor3uint8 196 40 28)]);
-     (bstr "Part", bstr "B", [(bstr "Size", VVector3 (mkV3 F32_ONE F32_ONE F32_ONE)); (bstr "Color", VColor3uint8 163 162 165)]);
-     (bstr "NotAClass", bstr "C", [(bstr "Note", VBinaryString [104; 105]); (bstr "Flag", VBool true)])].
-Proof.
-  destruct bundled_example_hypotheses as (H1 & H2 & H3 & H4 & H5 & H6 & H7 & _).
-  split; [|vm_compute; reflexivity].
-  destruct (known_props_roundtrip_bundled ep_ex None ex_dom ex_ts dp_ex H1 H2 H3 H4 H5 H6 eq_refl H7) as (b & st & out & A & B & C & D & _).
-  exists b, st, out. auto.
-Qed.
-Print Assumptions known_props_roundtrip_bundled.
-Print Assumptions bundled_example_roundtrip.
